@@ -377,6 +377,9 @@ pub fn special_ext_tasks() -> Vec<ExtTask> {
         // constants whose numeric suffixes order differently from their byte order
         mk("out(X) :- in(X), X != a2, X != a10, X != a9.", false, "out(X) :- in(X), X != a9, X != a10, X != a2.", "input: in/1. output: out/1.", ""),
         mk("spec: forall X (out(X) <-> in(X) and X != v10 and X != v2).", true, "out(X) :- in(X), X != v2, X != v10.", "input: in/1. output: out/1.", ""),
+        // deeply nested partial arithmetic (division inside division): several value variables of one stem in one formula
+        mk("out(1/(1+((1+1)/X))) :- in(X).", false, "out(0) :- in(1).", "input: in/1. output: out/1.", ""),
+        mk("out(X) :- in(X), 2/(1+(2/X)) = 1.", false, "out(2) :- in(2).", "input: in/1. output: out/1.", ""),
         // one symbol at several arities with different visibility (private/public/input), clashing private copies on both sides
         mk("q(X) :- in(X). q(X,X) :- q(X).", false, "q(X) :- in(X). q(X,X) :- q(X).", "input: in/1. output: q/2.", ""),
         mk("q(X) :- in(X), X > 0. q(X,X) :- q(X).", false, "q(X) :- in(X). q(X,X) :- q(X), X > 0.", "input: in/1. output: q/2.", ""),
